@@ -89,6 +89,8 @@ def gen_array(rnd, kind):
         a["data"] = [float(round(data[0])) if data[0] == data[0] and abs(data[0]) != float("inf") else 0.0]
     if shape and rnd.random() < 0.12:
         a["as"] = rnd.choice(["list", "list", "tuple"])  # the caller passes a (nested) Python list / tuple
+    elif shape and rnd.random() < 0.05:
+        a["as"] = "bigendian"  # read from a big-endian file: same values, non-native byte order
     elif len(shape) >= 2 and rnd.random() < 0.2:
         a["as"] = rnd.choice(["fortran", "transposed"])  # multi-dimensional, not C-contiguous
     elif len(shape) == 1 and rnd.random() < 0.1:
@@ -349,6 +351,8 @@ def build_arg(a):
         return tup(arr.tolist())
     if a.get("as") == "int":
         arr = arr.astype(np.int64)
+    if a.get("as") == "bigendian":
+        arr = arr.astype(arr.dtype.newbyteorder(">"))
     if a.get("readonly"):
         arr.flags.writeable = False
     if a.get("as") in ("strided", "negstride", "series"):
